@@ -1,4 +1,5 @@
 import Moclo.Proofs.Assembly
+import Moclo.Proofs.SameRole
 /-!
 # C19 — parts of the same type are interchangeable
 
@@ -116,6 +117,14 @@ theorem substitute_modules {v : Ent} {mods mods' : List Ent} {pid pname : Nat} {
   cases hf : mods.find? (fun e => e.oid = g.oid) with
   | none => rw [find_none_interchangeable hrel g.oid hf]
   | some e => rw [hsame e hf]
+
+/-- the same for the vector: the outcome of an assembly depends on *every* input only through its role —
+position, overhang keys, retained fragment (`SameRole`) — so a vector of the same type with another backbone
+gives the same chain and the same module segments -/
+theorem substitute_any {v v' : Ent} {mods mods' : List Ent} {pid pname : Nat} {p : Product} {after : List Rec}
+    (h : assemble v mods pid pname = (.ok p, after)) (hv : SameRole v v') (hm : List.Forall₂ SameRole mods mods') :
+    ∃ p', (assemble v' mods' pid pname).1 = .ok p' ∧ p'.rcd.seq = p.rcd.seq ∧ p'.unused = p.unused :=
+  assemble_sameRole h hv hm
 
 /-! non-vacuity: see `Moclo.C01` example; a replacement with another target changes only that segment -/
 
